@@ -55,7 +55,7 @@ def _is_result_edge(g, e):
     return t["k"] == "call" and e.dst == (e.site[0], t["dst"]["l"])
 
 
-def _preserving(g, e, forward):
+def _preserving(g, e, forward, extra=()):
     if e.kind != DATA:
         return False
     if e.op in (MOVE, "field", "hof"):
@@ -64,7 +64,7 @@ def _preserving(g, e, forward):
         nm = _callee_name(g, e)
         if forward and nm in ("zip", "chain"):
             return False
-        return nm in CONTAINER_PRESERVING
+        return nm in CONTAINER_PRESERVING or nm in extra
     return False
 
 
@@ -72,7 +72,7 @@ def _through_field(e, fields):
     return any(len(ce) > 3 and (ce[2], ce[3]) in fields for ce in (e.chain or ()))
 
 
-def alias_roots(g, node, not_through=()):
+def alias_roots(g, node, not_through=(), extra=()):
     """backward closure over container-preserving edges: every node the container at `node` is (a view of).
     Edges that project one of the fields in `not_through` are not followed (that field is another component)."""
     rev = _rev(g)
@@ -87,7 +87,7 @@ def alias_roots(g, node, not_through=()):
                 continue
             if not_through and _through_field(e, not_through):
                 continue
-            if _preserving(g, e, False):
+            if _preserving(g, e, False, extra):
                 seen.add(a)
                 dq.append(a)
     return seen
